@@ -1,11 +1,11 @@
 CONSTANTS
-  Cmds = {"read", "set", "trigger"}
+  Cmds = {"wait", "wait_for", "set"}
   Objs = {"x", "y"}
   HA = 2
   PA = 4
   HB = 3
   PB = 1
-  BCmds = {"read", "set", "trigger"}
+  BCmds = {"wait", "wait_for", "set"}
   BObjs = {"x", "y"}
   HC = 1
   PC = 4
